@@ -56,6 +56,23 @@ func init() {
 	probes["O53"] = probeO53
 	probes["O54"] = probeO54
 	probes["O55"] = probeO55
+	probes["O73"] = func() (bool, string) {
+		// (the defect is unbounded recursion: a fatal stack overflow, not a panic - bounded by depth here)
+		depth := 0
+		zzsimhook.OnEnter = func(string) {
+			depth++
+			if depth > 300000 {
+				panic("does not come to an end")
+			}
+		}
+		defer func() { zzsimhook.OnEnter = nil }()
+		return guard(func() (bool, string) {
+			m := map[string]interface{}{}
+			m["self"] = m
+			err := ucfg.New().Unpack(&m)
+			return false, fmt.Sprint(err)
+		})
+	}
 	probes["O69"] = probeBounded(func() {
 		// (a) a path argument that leads into the value itself
 		c, v := ucfg.New(), ucfg.New()
